@@ -14,10 +14,12 @@ PROPS["C09"] = {
                    "entry and AND expected_i. Expanded keys: shared ExpandedPublicKey objects reused across option sets must decide (and panic) "
                    "exactly like plain verification; NewExpandedPublicKey succeeds iff the reference decoder accepts. Cache: histories over "
                    "{Verify, VerifyWithOptions, Add, AddWithOptions, AddPublicKey, direct Get/Put} with capacity 1..4 over 6 keys; decisions equal plain "
-                   "verification and after every step the store/list/recency invariants hold against verifref.LRU. Does not prove absence."),
+                   "verification and after every step the store/list/recency invariants hold against verifref.LRU. Randomizers (internal/scalar128): "
+                   "every coefficient of the linear combination is in [1, 2^128], 256 consecutive ones are distinct with no stuck bit, they depend on "
+                   "the entropy, and a source that dries up is an error. Does not prove absence."),
     "level_note": ("Trusted: math/big, verifref (self-tested against RFC 8032 vectors and crypto/ed25519), rapid. The per-entry oracle of the batch/cache "
                    "histories is the library's own single verification (the property is an agreement property); it is tied to the independent reference "
-                   "on the first two steps of every expanded-key case and by C01. A false batch accept needs a ~2^-125 event over the ChaCha-derived "
+                   "on the first step of every expanded-key case and by C01. A false batch accept needs a ~2^-125 event over the ChaCha-derived "
                    "coefficients; entropy readers always deliver (a failing reader is a documented panic). The state of caller buffers mutated after Add "
                    "and nil *Options (documented panic) are outside the asserted domain."),
     "rule": ("rapid-generated cases: a hand-signed pool (keys: honest, mixed-order, small-order, non-canonical spelling, undecodable, wrong length; "
